@@ -242,7 +242,8 @@ def run(chk):
     for p in base:
         progs += variants(p)
     if quick and len(progs) > 900:
-        progs = random.Random(chk.seed).sample(progs, 900)
+        small = [p for p in progs if '"join"' in json.dumps(p)]          # the small families are kept whole
+        progs = random.Random(chk.seed).sample([p for p in progs if p not in small], 900) + small
     # the same multi-line handlers with a comment between every two lines (three styles): a comment never changes what a handler does --
     # the commented text is rejected (a comment between two switch clauses is) or performs the same effects
     import copy
